@@ -241,11 +241,33 @@ void kernels(sink& out)
     int ks = add_inst(out, ev("Inst").str("kind", "NtKernel").str("op", "square").num("exp", -32).raw("lt", ty<std::int32_t>()).raw("rt", ty<std::int32_t>()));
     int ka = add_inst(out, ev("Inst").str("kind", "NtKernel").str("op", "average").num("exp", -17).raw("lt", ty<std::int32_t>()).raw("rt", ty<std::int32_t>()));
     int kx = add_inst(out, ev("Inst").str("kind", "NtKernel").str("op", "mixed_add").num("exp", -8).raw("lt", ty<std::int32_t>()).raw("rt", ty<std::int32_t>()));
+    int kc1 = add_inst(out, ev("Inst").str("kind", "NtKernel").str("op", "mixed_cmp_fine_coarse").num("exp", 0).raw("lt", ty<std::int32_t>()).raw("rt", ty<std::int32_t>()));
+    int kc2 = add_inst(out, ev("Inst").str("kind", "NtKernel").str("op", "mixed_cmp_coarse_fine").num("exp", 0).raw("lt", ty<std::int32_t>()).raw("rt", ty<std::int32_t>()));
+    auto mask = [](bool lt, bool le, bool gt, bool ge, bool eq, bool ne) {
+        return static_cast<std::int32_t>(lt * 1 + le * 2 + gt * 4 + ge * 8 + eq * 16 + ne * 32);
+    };
     std::size_t n = 0;
     for (std::int32_t a : as) {
         for (std::int32_t b : bs) {
             if (!thorough() && (n++ % 5)) {
                 continue;
+            }
+            // comparison of a fine (2^-8) with a coarse (2^-4) number, either order, against shift-and-compare
+            if (std::int64_t{b} * 16 >= INT32_MIN && std::int64_t{b} * 16 <= INT32_MAX) {
+                using P8 = cnl::scaled_integer<std::int32_t, cnl::power<-8>>;
+                using P4 = cnl::scaled_integer<std::int32_t, cnl::power<-4>>;
+                auto x = cnl::_impl::from_rep<P8>(a);
+                auto y = cnl::_impl::from_rep<P4>(b);
+                std::int32_t m1 = 0, m2 = 0;
+                auto wo = guarded([&] {
+                    m1 = mask(x < y, x <= y, x > y, x >= y, x == y, x != y);
+                    m2 = mask(y < x, y <= x, y > x, y >= x, y == x, y != x);
+                });
+                std::int64_t bb = std::int64_t{b} * 16;
+                std::int32_t r1 = mask(a < bb, a <= bb, a > bb, a >= bb, a == bb, a != bb);
+                std::int32_t r2 = mask(bb < a, bb <= a, bb > a, bb >= a, bb == a, bb != a);
+                out.put(ev("NtKernel").num("i", kc1).raw("l", enc(a)).raw("r", enc(b)).raw("wres", enc(m1)).num("wexp", 0).raw("bres", enc(r1)).str("wout", wo).s);
+                out.put(ev("NtKernel").num("i", kc2).raw("l", enc(a)).raw("r", enc(b)).raw("wres", enc(m2)).num("wexp", 0).raw("bres", enc(r2)).str("wout", wo).s);
             }
             auto fa = cnl::_impl::from_rep<S32>(a);
             auto fb = cnl::_impl::from_rep<S32>(b);
